@@ -83,7 +83,9 @@ func harnessOverlay(verifRoot string, dirs []string) (map[string][]byte, error) 
 		ov[filepath.Join(repoRoot, d, "zz_vx_shim.go")] = []byte(strings.Replace(string(shim), "package PKG", "package "+pkgName, 1))
 		// shared helper files (scripted conn, frames) for packages above socket/
 		switch d {
-		case "socket", "utils", "codec", "xfer":
+		case "socket", "utils", "codec", "xfer", "xfer/gzip", "xfer/md5":
+			// (packages below or beside socket/: the shared file imports socket, and
+			// socket's own tests import the filters - an import cycle in the native build)
 		default:
 			sh, _ := filepath.Glob(filepath.Join(verifRoot, "harness", "shared", "*.go.txt"))
 			for _, f := range sh {
@@ -480,6 +482,13 @@ func (i *interpreter) runPath(p *program, pkg *ssa.Package, fn *ssa.Function, pr
 	case "budget":
 		st.pathsBudget++
 		st.unsupportedMsgs[i.path.endMsg]++
+		if strings.HasPrefix(i.path.endMsg, "instruction budget exceeded") {
+			// a thread that keeps running may be a livelock (a retry loop that can
+			// never succeed): the native replay decides - it is reported only if
+			// the real build does not finish either (test deadline)
+			i.st.obligations++
+			i.reportViolation("hang", "a thread keeps running without completing (instruction budget exhausted): livelock unless the native run finishes", nil)
+		}
 	case "infeasible":
 		st.pathsInfeasible++
 	default:
